@@ -154,6 +154,8 @@ impl<DP: DependencyProvider> State<DP> {
                 let (package_almost, root_cause) =
                     self.conflict_resolution(incompat_id)
                         .map_err(|terminal_incompat_id| {
+                            #[cfg(pubgrub_verif)]
+                            crate::verif::emit(|| self.verif_store_snapshot());
                             self.build_derivation_tree(terminal_incompat_id)
                         })?;
                 self.unit_propagation_buffer.clear();
@@ -287,6 +289,42 @@ impl<DP: DependencyProvider> State<DP> {
                 .or_default()
                 .push(id);
         }
+    }
+
+    /// Verification hook: canonical multi-line text of the incompatibility store and its indices.
+    #[cfg(pubgrub_verif)]
+    pub(crate) fn verif_store_snapshot(&self) -> String {
+        let mut out = String::from("store");
+        for id in self.incompatibility_store.verif_ids() {
+            out.push_str(&format!(
+                "\nI{};{}",
+                id.into_raw(),
+                self.incompatibility_store[id].verif_snapshot()
+            ));
+        }
+        let mut index: Vec<String> = self
+            .incompatibilities
+            .iter()
+            .map(|(p, ids)| {
+                let ids: Vec<String> = ids.iter().map(|i| i.into_raw().to_string()).collect();
+                format!("idx;{};{}", p, ids.join(" "))
+            })
+            .collect();
+        index.sort();
+        let mut merged: Vec<String> = self
+            .merged_dependencies
+            .iter()
+            .map(|((p, q), ids)| {
+                let ids: Vec<String> = ids.iter().map(|i| i.into_raw().to_string()).collect();
+                format!("merged;{} {};{}", p, q, ids.join(" "))
+            })
+            .collect();
+        merged.sort();
+        for line in index.into_iter().chain(merged) {
+            out.push('\n');
+            out.push_str(&line);
+        }
+        out
     }
 
     // Error reporting #########################################################
